@@ -31,10 +31,10 @@ def runAllL : List (List Write) → FsL → FsL
 /-- decidable over-approximation test: is `l1` a tree an interrupted `outs` can leave from `l0`? -/
 def isPartial1 (cs : CodeSpec) (c0 c1 : Option Content) : Bool :=
   c1 == c0 || c1 == writeOne cs c0 ||
-  (!(isSub STATIC (readText c0)) &&
+  (!(isStaticC c0) &&
     match c1, writeOne cs c0 with
     | some (.text x), some (.text new) => x.isPrefixOf new
-    | some (.binary _), _ => true
+    | some (.binary b), _ => !(isSub (bytesOf STATIC) b)
     | _, _ => false)
 
 def isPartial0 (scope : Bool) (c0 c1 : Option Content) : Bool :=
